@@ -1,8 +1,16 @@
 """C04  And/Or/Not compose query results as intersection, union and complement.
 
-`applye2e` is answered on the model side by `applyQM`: the `_apply` composition over the C01/C02 index models
-that ran the same `doc` history (theorem `c04_end_to_end` says it equals the specification-level `applyQ`,
-which the driver prints as the specification answer of that command).
+`applye2e` is answered on the model side by `applyQM`: the `_apply` composition over the C01/C02/C13/C03 index
+models (field, keyword, facet with hierarchical paths, text with query STRINGS as leaf values) that ran the same
+`doc` history (theorem `c04_end_to_end` says it equals the specification-level `applyQ`, which the driver prints
+as the specification answer of that command when the theorem's hypotheses hold for the session).
+70% of the catalogs are `e2e` catalogs (lib/qtree.py: FACETS / FACET_NAMES / FACET_PATHS, QUERIES).
+
+Mutations for the composed part (scratch copies, quick tier, seed 0; all VIOLATION):
+  M6 facet/__init__.py index_doc: candidate prefixes only up to len-1 (a document with a 2+-segment path is no
+     longer listed under the full path)
+  M7 text/parsetree.py AndNode: NOT operands ignored          M8 text/__init__.py applyNotEq = applyContains
+  M9 text/parsetree.py AndNode: mass_weightedIntersection -> mass_weightedUnion
 
 Mutation sanity check (scratch copies, quick tier, seed 0; all reported VIOLATION with a failing input):
   M1 `Query.union`: right non-empty and left empty returns left          M2 `Not._apply` forgets `negate()`
@@ -18,7 +26,8 @@ AUDIT_IMPORTS = ["HypatiaProofs.Properties.C04"]
 THEOREMS = ["Hyp.Query." + t for t in (
     "c04_budget_irrelevant", "c04_and", "c04_or", "c04_well_typed_succeeds", "c04_and_constructor",
     "c04_or_constructor", "c04_not_is_negate", "c04_complement_partial", "c04_negate_complement_partial",
-    "c04_notall_violates_complement", "c04_end_to_end", "c04_apply_congruence", "c04_and_end_to_end")]
+    "c04_notall_violates_complement", "c04_apply_is_sem_partial", "c04_end_to_end", "c04_end_to_end_no_text", "c04_text_leaf",
+    "c04_apply_congruence", "c04_apply_leaves_only", "c04_and_end_to_end")]
 CASES = {"quick": 6000, "thorough": 150000}
 BUDGET_S = {"quick": 40, "thorough": 700}
 RULE = ("catalogs of 1-4 real indexes (field, keyword, facet, text) with 0-25 documents; half of the catalogs are "
@@ -26,16 +35,19 @@ RULE = ("catalogs of 1-4 real indexes (field, keyword, facet, text) with 0-25 do
         "other half leave values out (then only And/Or clauses are checked against the specification); random "
         "trees of depth <= 4, arity 1-4, repeated operands, 7% comparators the index does not implement; "
         "half of the catalogs re-index some documents (new value / no value) before the queries; "
+        "70% of the catalogs have model-backed facet indexes (hierarchical paths, configured/unconfigured names) "
+        "and text indexes whose leaf values are query strings (words, phrases, globs, AND/OR/NOT, parentheses); "
         "observed through execute(optimize=False), _apply, CatalogQuery.query and the &/| operators (one entry "
-        "point in six is answered on the model side by the composed C01/C02 index models), plus "
+        "point in four is answered on the model side by the composed C01/C02/C13/C03 index models), plus "
         "the shape of the constructed tree and of q.negate(). non-trivial = tree has a boolean node and the "
         "case contains a non-empty and two different answers")
 LEVEL_TEXT = ("Lean 4 theorems by induction over the query tree for every catalog: And = intersection, Or = union "
               "of the operands' answers, Not/negate = complement under the Total hypothesis (De Morgan over "
               "hypatia's negate table), with the model of hypatia/query tied to the code by a differential run")
-LEVEL_NOTE = ("leaves are answered at specification level; for field and keyword/facet indexes that is a theorem "
-              "(c04_end_to_end: the same _apply composition over the C01/C02 index models after arbitrary "
-              "histories has the same outcome on every tree), text leaves rest on C03; trusted: Lean kernel, the "
+LEVEL_NOTE = ("leaves are answered at specification level; for all four index kinds that is a theorem "
+              "(c04_end_to_end: the same _apply composition over the C01/C02/C13/C03 index models after arbitrary "
+              "histories has the same outcome on every tree; text indexes under C03's hypotheses - lexicon below "
+              "2^28 words, query strings accepted and admissible); trusted: Lean kernel, the "
               "sampled correspondence, harness. Known findings D2 (NotAll._apply) and D10 (family32) are mirrored "
               "/ classified, not hidden")
 TECHNIQUE = "Lean 4 structural induction over the query AST + differential correspondence on real catalogs"
@@ -43,28 +55,30 @@ TECHNIQUE = "Lean 4 structural induction over the query AST + differential corre
 
 def gen(rng, tier, idx):
     total = rng.random() < 0.5
-    kinds, cfg, docs = qtree.gen_catalog(rng, total)
+    # e2e catalogs: facet and text indexes are model-backed in the driver (hierarchical facets over a dictionary
+    # of names, text leaves = query STRINGS), so that `applye2e` composes all four index models
+    e2e = rng.random() < 0.7
+    kinds, cfg, docs = qtree.gen_catalog(rng, total, e2e=e2e)
     if rng.random() < 0.04:
         cfg[0] = ["cfg", "family", 32]
     cmds = list(docs)
     if docs and rng.random() < 0.5:
         # histories, not just fills: some documents are indexed again with another value (or, on
-        # non-Total catalogs, without one) - the index models of C01/C02 run the same history (`applye2e`)
+        # non-Total catalogs, without one) - the index models run the same history (`applye2e`)
         for _ in range(rng.randrange(1, 5)):
             _, i, d = rng.choice(docs)[:3]
             k = kinds[i]
             if not total and rng.random() < 0.25:
                 cmds.append(["doc", i, d, "none"])
-            elif k == "field":
-                cmds.append(["doc", i, d, rng.randrange(10)])
-            elif k == "text":
-                cmds.append(["doc", i, d] + [rng.randrange(len(qtree.WORDS)) for _ in range(rng.randrange(1, 5))])
             else:
-                cmds.append(["doc", i, d] + sorted(set(rng.randrange(6) for _ in range(rng.randrange(1, 4)))))
+                cmds.append(["doc", i, d] + (qtree.doc_values(rng, k, True, e2e) or [0]))
     for _ in range(rng.randrange(3, 9)):
-        t = qtree.gen_tree(rng, kinds, rng.randrange(1, 5))
+        t = qtree.gen_tree(rng, kinds, rng.randrange(1, 5), e2e=e2e)
         toks = qtree.flat_tokens(t)
-        op = rng.choice(["apply", "apply", "applyq", "applyraw", "applyops", "applye2e"])
+        op = rng.choice(["apply", "apply", "applyq", "applyraw", "applyops", "applye2e", "applye2e"] if e2e else
+                        ["apply", "apply", "applyq", "applyraw", "applyops", "applye2e"])
+        if op == "applye2e" and not e2e and "text" in kinds:
+            op = "apply"            # a specification-level text index has no model to compose
         if t[0] in ("and", "or") and len(t[1]) >= 3 and rng.random() < 0.5:
             op = "applyshared"      # the same sub-query object reused as operand of two larger queries
         cmds.append([op] + toks)
@@ -84,22 +98,13 @@ def gen(rng, tier, idx):
                 k = kinds[i]
                 if not total and rng.random() < 0.4:
                     cmds.append(["doc", i, d, "none"])
-                elif k == "field":
-                    cmds.append(["doc", i, d, rng.randrange(10)])
-                elif k == "text":
-                    cmds.append(["doc", i, d] + [rng.randrange(len(qtree.WORDS)) for _ in range(rng.randrange(1, 5))])
                 else:
-                    cmds.append(["doc", i, d] + sorted(set(rng.randrange(6) for _ in range(rng.randrange(1, 4)))))
+                    cmds.append(["doc", i, d] + (qtree.doc_values(rng, k, True, e2e) or [0]))
                 if total:
                     # keep the catalog Total: a new document gets a value in every index
                     for j, kj in enumerate(kinds):
                         if j != i and not any(c[0] == "doc" and c[1] == j and c[2] == d for c in cmds):
-                            if kj == "field":
-                                cmds.append(["doc", j, d, rng.randrange(10)])
-                            elif kj == "text":
-                                cmds.append(["doc", j, d, rng.randrange(len(qtree.WORDS))])
-                            else:
-                                cmds.append(["doc", j, d, rng.randrange(6)])
+                            cmds.append(["doc", j, d] + qtree.doc_values(rng, kj, True, e2e)[:1])
     return {"session": "query", "cfg": cfg, "kinds": kinds, "cmds": cmds}
 
 
@@ -223,7 +228,19 @@ def features(case, outs):
                 f.append("has:" + t)
         if "notall" in c[1:]:
             f.append("has:notall")
+        if c[0] == "applye2e":
+            e2e = any(x[1] == "e2e" for x in case["cfg"])
+            for k in sorted(set(leaf_kinds(qtree.parse_tokens(list(c[1:])), case["kinds"]))):
+                f.append("e2e-leaf:%s%s" % (k, "-model" if e2e or k in ("field", "keyword") else ""))
     return f
+
+
+def leaf_kinds(t, kinds):
+    if t[0] in ("cmp", "range"):
+        return [kinds[t[2]]] if t[2] < len(kinds) else []
+    if t[0] == "not":
+        return leaf_kinds(t[1], kinds)
+    return [k for x in t[1] for k in leaf_kinds(x, kinds)]
 
 
 def effective_notall(t, neg=False):
